@@ -3,6 +3,7 @@ import RoaringModel.Lemmas.Parser
 import RoaringModel.Lemmas.RoundTrip
 import RoaringModel.Lemmas.EncodeSpec
 import RoaringModel.Lemmas.TreemapCodec
+import RoaringModel.Lemmas.TreemapEncodeSpec
 /-!
 # C05 — serialization is exact, deterministic and format-conformant (32-bit half)
 -/
@@ -115,5 +116,28 @@ example : Treemap.serialize [(0, [{ key := 0, store := .array [5] }]), (42949672
     = [2, 0, 0, 0, 0, 0, 0, 0,
        0, 0, 0, 0, 58, 48, 0, 0, 1, 0, 0, 0, 0, 0, 0, 0, 16, 0, 0, 0, 5, 0,
        255, 255, 255, 255, 58, 48, 0, 0, 1, 0, 0, 0, 0, 0, 0, 0, 16, 0, 0, 0, 5, 0] := by decide
+
+/-- The treemap bytes are the reference encoding of the 64-bit portable format (`Spec.encode64`, written from the
+    format description: `u64` count, ascending `u32` keys each followed by the standard 32-bit encoding of the low
+    halves) **determined by the element set alone**.  Partial only in the 32-bit kernel hypothesis
+    `Kernel.bitmap_toArray` inherited from `C05_bytes_partial`; the 64-bit layer (bucket keys = distinct high
+    halves, bucket contents = low halves, count) is proved in `Lemmas/TreemapEncodeSpec.lean`. -/
+theorem C05_t_bytes_partial (hK : Kernel.bitmap_toArray) (t : Treemap) (h : TreemapWF t) :
+    Treemap.serialize t = Spec.encode64 (Treemap.elems t) :=
+  Treemap.serialize_eq_encode64 t (Treemap.partsOK_of_serWF hK h) h.sorted
+    (fun p hp => C05_bytes_partial hK p.2 (h.parts p hp).2.1)
+
+/-- the full statement as a `Prop` -/
+def C05_t_bytes_statement : Prop :=
+  ∀ t : Treemap, TreemapWF t → Treemap.serialize t = Spec.encode64 (Treemap.elems t)
+
+/-- two treemaps with the same elements serialise to the same bytes (history-independence) -/
+theorem C05_t_deterministic_partial (hK : Kernel.bitmap_toArray) (a b : Treemap) (ha : TreemapWF a)
+    (hb : TreemapWF b) (he : Treemap.elems a = Treemap.elems b) : Treemap.serialize a = Treemap.serialize b := by
+  rw [C05_t_bytes_partial hK a ha, C05_t_bytes_partial hK b hb, he]
+
+/-- concrete agreement (no hypothesis): partitions 0 and `u32::MAX` -/
+example : Treemap.serialize [(0, [{ key := 0, store := .array [1, 5] }]), (4294967295, [{ key := 65535, store := .array [65535] }])]
+    = Spec.encode64 [1, 5, 18446744073709551615] := by decide
 
 end Roaring.C05
